@@ -2,6 +2,7 @@
 
 import json
 import os
+import select
 import struct
 import subprocess
 
@@ -21,6 +22,7 @@ class SimDisk:
         self.p = None
         self.ops = 0
         self.deaths = 0
+        self.timeout = 30
 
     def start(self):
         self.errf = open(os.devnull, 'wb')
@@ -42,6 +44,14 @@ class SimDisk:
         try:
             self.p.stdin.write(struct.pack('<I', len(msg)) + msg)
             self.p.stdin.flush()
+            # the library code may loop for ever on hostile input: bound every operation
+            ready, _, _ = select.select([self.p.stdout], [], [], self.timeout)
+            if not ready:
+                self.p.kill()
+                self.p.wait()
+                self.p = None
+                self.deaths += 1
+                raise WorkerDied('timeout', b'no answer within %d s: unbounded loop' % self.timeout)
             hdr = self.p.stdout.read(4)
         except BrokenPipeError:
             hdr = b''
